@@ -187,3 +187,6 @@ PROPS["C11"] = {
     "trusted_base": ["reference grammar RefGrammar.v (written from RFC 5321/1870/3461/4954/6531/6533/7293/3339/8689)"],
     "assumptions": ["lines classified Unspecified by the reference grammar are not judged"],
 }
+
+PROPS["C10"]["kinds"] = ["tls", "conv", "cli", "sm"]
+PROPS["C10"]["rule"] += " sm: package-level SendMail and DialStartTLS + Client.SendMail against a scripted TCP server on the loopback interface x server behaviours {STARTTLS not offered, refused 454/502, 220 then garbage, 220 then close, real TLS upgrade, EHLO refused (HELO fallback)} x {with, without credentials}; oracle: only EHLO/HELO/STARTTLS/QUIT lines reach the server in plaintext, the call fails unless the upgrade succeeded (no model is involved in this kind)."
